@@ -25,13 +25,15 @@ def demo_cmd(how, src, wt, seeded):
             out.append("true"); continue
         out.append(s)
     return " ".join(out)
-ids = sys.argv[1:] or sorted(os.path.basename(p)[:-4] for p in glob.glob('/tmp/mut/C*.out'))
+SRC = os.environ.get("SEEDED_SRC", "/tmp/mut")
+TAG = os.environ.get("SEEDED_TAG", "")
+ids = [a for a in sys.argv[1:] if not a.startswith("--")] or sorted(os.path.basename(p)[:-4] for p in glob.glob(SRC + '/C*.out'))
 for pid in ids:
     for n in ("1", "2", "3"):
-        src = "/tmp/mut/%s.out/%s" % (pid, n)
+        src = "%s/%s.out/%s" % (SRC, pid, n)
         if not os.path.exists(src + "/meta.json") or not os.path.exists(src + "/patch.diff"):
             continue
-        dst = "/verif/seeded/%s-%s" % (pid, n)
+        dst = "/verif/seeded/%s-%s%s" % (pid, TAG, n)
         if os.path.exists(dst + "/confirm.json") and "--force" not in sys.argv:
             continue
         shutil.rmtree(dst, ignore_errors=True)
@@ -43,7 +45,7 @@ for pid in ids:
         wt = w + "/" + pid      # same basename the demo expects is irrelevant; paths are rewritten
         try:
             subprocess.check_call(["git", "-C", "/repo", "worktree", "add", "-q", "--detach", wt, "HEAD"])
-            cmd = demo_cmd(how, "/tmp/mut/%s.out/%s" % (pid, n), wt, dst)
+            cmd = demo_cmd(how, "%s/%s.out/%s" % (SRC, pid, n), wt, dst)
             res["demo_cmd"] = cmd
             rc0, out0 = sh(cmd)
             res["unpatched_rc"] = rc0
